@@ -59,8 +59,8 @@ Proof. unfold nobrace. apply forallb_app. Qed.
 Definition finish (s : str) (st : scan_st) : str * list (str * str) :=
   (fmt_str st ++ skipn (cur_pos st) s, keys st).
 
-Lemma scan_unfold s :
-  scan s = finish s (scan_loop (S (length s)) s (find_from LB s 0)
+Lemma scan_unfold skip s :
+  scan skip s = finish s (scan_loop skip (S (length s)) s (find_from LB s 0)
                                {| cur_pos := 0; fmt_str := []; keys := [] |}).
 Proof. reflexivity. Qed.
 
@@ -98,25 +98,24 @@ Proof.
   - now rewrite app_nil_r.
 Qed.
 
-Lemma scan_loop_print : forall (r : tpl) (pre : str) (st : scan_st) (fuel : nat),
-  wf_tpl r = true -> ok_adj r = true ->
+(* for the repaired scanner (skip = false) on every well-formed template; for the pinned one
+   (skip = true) when no escaped "}}" directly follows a placeholder *)
+Lemma scan_loop_print (skip : bool) : forall (r : tpl) (pre : str) (st : scan_st) (fuel : nat),
+  wf_tpl r = true -> (skip = true -> ok_adj r = true) ->
   cur_pos st <= length pre -> length r < fuel ->
-  finish (pre ++ print r) (scan_loop fuel (pre ++ print r) (find_from LB (pre ++ print r) (length pre)) st)
+  finish (pre ++ print r) (scan_loop skip fuel (pre ++ print r) (find_from LB (pre ++ print r) (length pre)) st)
   = (fmt_str st ++ skipn (cur_pos st) pre ++ positional r, keys st ++ holes r).
 Proof.
-  induction r as [|a r IH]; intros pre st fuel Hwf Hadj Hcur Hfuel.
+  induction r as [|a r IH]; intros pre st fuel Hwf Hadj0 Hcur Hfuel.
   - change (print []) with (@nil N). rewrite app_nil_r.
     rewrite (find_from_at LB pre pre [] (length pre)) by (now rewrite ?app_nil_r).
     simpl. destruct fuel; simpl; unfold finish; now rewrite !app_nil_r.
   - simpl in Hwf. apply andb_true_iff in Hwf as [Ha Hwf].
-    simpl in Hadj. apply andb_true_iff in Hadj as [Hadj1 Hadj].
-    assert (Hskip : forall t, notc LB t = true ->
-              print (a :: r) = t ++ print r -> pos_tok a = t ->
-              finish (pre ++ print (a :: r))
-                (scan_loop fuel (pre ++ print (a :: r)) (find_from LB (pre ++ print (a :: r)) (length pre)) st)
-              = (fmt_str st ++ skipn (cur_pos st) pre ++ positional (a :: r), keys st ++ holes (a :: r))
-                \/ True -> True) by auto.
-    clear Hskip.
+    assert (Hadj1 : skip = true -> match a, r with Hole _ _, EscR :: _ => false | _, _ => true end = true).
+    { intros E. specialize (Hadj0 E). simpl in Hadj0. now apply andb_true_iff in Hadj0 as [H1 _]. }
+    assert (Hadj : skip = true -> ok_adj r = true).
+    { intros E. specialize (Hadj0 E). simpl in Hadj0. now apply andb_true_iff in Hadj0 as [_ H2]. }
+    clear Hadj0.
     destruct a as [t| | |n sp].
     + (* Text *)
       simpl in Ha. apply andb_true_iff in Ha as [Hnb _].
@@ -162,8 +161,8 @@ Proof.
       set (body := n ++ spec_text sp).
       assert (Hbody : nobrace body = true) by (unfold body; rewrite nobrace_app, Hn, Hsp; reflexivity).
       destruct (nobrace_split body Hbody) as [HbL HbR].
-      assert (Hstart : starts_escr r = false).
-      { destruct r as [|b r']; [reflexivity|]. destruct b; try reflexivity. simpl in Hadj1. discriminate. }
+      assert (Hstart : skip = true -> starts_escr r = false).
+      { intros E. specialize (Hadj1 E). destruct r as [|b r']; [reflexivity|]. destruct b; try reflexivity. discriminate. }
       replace (print (Hole n sp :: r)) with ((LB :: body ++ [RB]) ++ print r)
         by (unfold body; simpl; now rewrite <- !app_assoc).
       set (s := pre ++ (LB :: body ++ [RB]) ++ print r).
@@ -197,14 +196,15 @@ Proof.
       { rewrite (find_from_at RB s (pre ++ [LB]) (body ++ RB :: print r) (length pre + 1) Es2)
           by (rewrite app_length; simpl; lia).
         rewrite (find_notin RB body _ HbR), find_hd. simpl. unfold c0. f_equal. lia. }
-      assert (Hclose : scan_close (S (length s)) s (Some c0) = Some c0).
-      { cbn [scan_close].
+      assert (Hclose : close_of skip s (length pre) = Some c0).
+      { unfold close_of. rewrite Hc0. destruct skip; [|reflexivity]. specialize (Hstart eq_refl).
+        cbn [scan_close].
         rewrite (find_from_at RB s (pre ++ LB :: body ++ [RB]) (print r) (c0 + 1) Es4)
           by (unfold c0; rewrite !app_length; simpl; rewrite app_length; simpl; lia).
         destruct (option_map _ _) as [c2|] eqn:E; [|reflexivity].
         erewrite find_not0_shift; [reflexivity| |exact E].
         now apply print_not_rb. }
-      unfold scan_hole. rewrite Hc0, Hclose.
+      unfold scan_hole. rewrite Hclose.
       assert (Hinside : substr s (length pre + 1) (c0 - (length pre + 1)) = body).
       { unfold substr. rewrite Es2.
         replace (length pre + 1) with (length (pre ++ [LB])) by (rewrite app_length; simpl; lia).
@@ -248,14 +248,23 @@ Proof.
   pose proof (wf_tok_len a Ha). specialize (IH Hr). lia.
 Qed.
 
-Theorem scan_print (r : tpl) :
-  wf_tpl r = true -> ok_adj r = true -> scan (print r) = (positional r, holes r).
+Theorem scan_print_gen (skip : bool) (r : tpl) :
+  wf_tpl r = true -> (skip = true -> ok_adj r = true) -> scan skip (print r) = (positional r, holes r).
 Proof.
   intros Hwf Hadj. rewrite scan_unfold.
-  pose proof (scan_loop_print r [] {| cur_pos := 0; fmt_str := []; keys := [] |}
+  pose proof (scan_loop_print skip r [] {| cur_pos := 0; fmt_str := []; keys := [] |}
                               (S (length (print r))) Hwf Hadj) as H.
   simpl in H. apply H; auto. pose proof (wf_tpl_len r Hwf). lia.
 Qed.
+
+(* the repaired scanner: every well-formed template *)
+Theorem scan_print (r : tpl) : wf_tpl r = true -> scan false (print r) = (positional r, holes r).
+Proof. intros Hwf. apply scan_print_gen; [exact Hwf|discriminate]. Qed.
+
+(* the pinned scanner: templates without an escaped "}}" directly after a placeholder *)
+Theorem scan_print_pinned (r : tpl) :
+  wf_tpl r = true -> ok_adj r = true -> scan true (print r) = (positional r, holes r).
+Proof. intros Hwf Hadj. apply scan_print_gen; auto. Qed.
 
 (* ================================================================================================ *)
 (* the fuel of the re-scanning loops is never exhausted (on ANY byte string)                        *)
@@ -295,21 +304,28 @@ Proof.
   apply find_from_bound in E, E'. apply IH in H. lia.
 Qed.
 
-Lemma scan_loop_none f s st : scan_loop f s None st = st.
+Lemma scan_loop_none skip f s st : scan_loop skip f s None st = st.
 Proof. destruct f; reflexivity. Qed.
 
-Lemma scan_hole_next s o st c st' :
-  scan_hole s o st = (Some c, st') -> o < c.
+Lemma close_of_next skip s o c : close_of skip s o = Some c -> o < c.
 Proof.
-  unfold scan_hole. destruct (find_from RB s (o + 1)) as [c0|] eqn:E.
-  - destruct (scan_close (S (length s)) s (Some c0)) as [c1|] eqn:E1; [|intros H; discriminate].
-    destruct (split_colon _) as [name syntax]. intros H. injection H as <- _.
-    apply find_from_bound in E. apply scan_close_ge in E1. lia.
-  - rewrite scan_close_none. intros H; discriminate.
+  unfold close_of. destruct (find_from RB s (o + 1)) as [c0|] eqn:E.
+  - apply find_from_bound in E. destruct skip.
+    + intros E1. apply scan_close_ge in E1. lia.
+    + intros H. injection H as <-. lia.
+  - destruct skip; [rewrite scan_close_none|]; discriminate.
 Qed.
 
-Lemma scan_loop_fuel : forall f1 f2 s o st,
-  length s - o < f1 -> length s - o < f2 -> scan_loop f1 s (Some o) st = scan_loop f2 s (Some o) st.
+Lemma scan_hole_next skip s o st c st' :
+  scan_hole skip s o st = (Some c, st') -> o < c.
+Proof.
+  unfold scan_hole. destruct (close_of skip s o) as [c1|] eqn:E1; [|intros H; discriminate].
+  destruct (split_colon _) as [name syntax]. intros H. injection H as <- _.
+  now apply close_of_next in E1.
+Qed.
+
+Lemma scan_loop_fuel skip : forall f1 f2 s o st,
+  length s - o < f1 -> length s - o < f2 -> scan_loop skip f1 s (Some o) st = scan_loop skip f2 s (Some o) st.
 Proof.
   induction f1 as [|f1 IH]; intros f2 s o st H1 H2; [lia|]. destruct f2 as [|f2]; [lia|].
   cbn [scan_loop].
@@ -320,16 +336,16 @@ Proof.
     destruct (Nat.eqb (o2' - 1) o); [|discriminate]. injection Eesc as <-.
     destruct (find_from LB s (o2' + 1)) as [o'|] eqn:E'; [|now rewrite !scan_loop_none].
     apply find_from_bound in E, E'. apply IH; lia.
-  - destruct (scan_hole s o st) as [[c|] st'] eqn:Eh; [|now rewrite !scan_loop_none].
+  - destruct (scan_hole skip s o st) as [[c|] st'] eqn:Eh; [|now rewrite !scan_loop_none].
     apply scan_hole_next in Eh.
     destruct (find_from LB s c) as [o'|] eqn:E'; [|now rewrite !scan_loop_none].
     apply find_from_bound in E'. apply IH; lia.
 Qed.
 
 (* [scan] gives the same result with any larger fuel: the bound length+1 is never reached *)
-Theorem scan_fuel_irrelevant s f st :
+Theorem scan_fuel_irrelevant skip s f st :
   length s < f ->
-  scan_loop f s (find_from LB s 0) st = scan_loop (S (length s)) s (find_from LB s 0) st.
+  scan_loop skip f s (find_from LB s 0) st = scan_loop skip (S (length s)) s (find_from LB s 0) st.
 Proof.
   intros Hf. destruct (find_from LB s 0) as [o|]; [|now rewrite !scan_loop_none].
   apply scan_loop_fuel; lia.
@@ -669,6 +685,7 @@ Section Oracle2.
 Variable arg : Type.
 Variable apply_spec : str -> arg -> option str.
 Variable is_string : arg -> bool.
+Variable skip : bool.                             (* the scanner variant *)
 
 (* all fields render: the per-spec renderings of the arguments are rs *)
 Definition renders (specs : list str) (args : list arg) (rs : list str) : Prop :=
@@ -753,13 +770,13 @@ Qed.
 (* ================================================================================================ *)
 (* the template cache                                                                               *)
 (* ================================================================================================ *)
-Definition cache_ok (c : cache) : Prop := forall k e, lookup k c = Some e -> e = scan k.
+Definition cache_ok (c : cache) : Prop := forall k e, lookup k c = Some e -> e = scan skip k.
 
 Lemma cache_ok_nil : cache_ok [].
 Proof. intros k e H. discriminate. Qed.
 
 Lemma process_cache_ok c t args :
-  cache_ok c -> cache_ok (fst (process arg apply_spec is_string c t args)).
+  cache_ok c -> cache_ok (fst (process arg apply_spec is_string skip c t args)).
 Proof.
   intros Hc. unfold process. destruct (contains_named t); [|exact Hc].
   destruct (lookup t c) as [e|] eqn:E; [exact Hc|]. simpl.
@@ -768,7 +785,7 @@ Qed.
 
 Lemma process_indep c t args :
   cache_ok c ->
-  snd (process arg apply_spec is_string c t args) = snd (process arg apply_spec is_string [] t args).
+  snd (process arg apply_spec is_string skip c t args) = snd (process arg apply_spec is_string skip [] t args).
 Proof.
   intros Hc. unfold process. destruct (contains_named t); [|reflexivity].
   simpl. destruct (lookup t c) as [e|] eqn:E; [|reflexivity].
@@ -778,7 +795,7 @@ Qed.
 Fixpoint cache_after (c : cache) (l : list (str * list arg)) : cache :=
   match l with
   | [] => c
-  | (t, a) :: r => cache_after (fst (process arg apply_spec is_string c t a)) r
+  | (t, a) :: r => cache_after (fst (process arg apply_spec is_string skip c t a)) r
   end.
 
 Lemma cache_after_ok : forall l c, cache_ok c -> cache_ok (cache_after c l).
@@ -787,8 +804,8 @@ Proof.
 Qed.
 
 Theorem cache_transparent h1 h2 t args :
-  snd (process arg apply_spec is_string (cache_after [] h1) t args)
-  = snd (process arg apply_spec is_string (cache_after [] h2) t args).
+  snd (process arg apply_spec is_string skip (cache_after [] h1) t args)
+  = snd (process arg apply_spec is_string skip (cache_after [] h2) t args).
 Proof.
   rewrite (process_indep (cache_after [] h1)) by (apply cache_after_ok, cache_ok_nil).
   rewrite (process_indep (cache_after [] h2)) by (apply cache_after_ok, cache_ok_nil).
@@ -797,27 +814,27 @@ Qed.
 
 Lemma process_all_indep : forall l c,
   cache_ok c ->
-  process_all arg apply_spec is_string c l
-  = map (fun ta => snd (process arg apply_spec is_string [] (fst ta) (snd ta))) l.
+  process_all arg apply_spec is_string skip c l
+  = map (fun ta => snd (process arg apply_spec is_string skip [] (fst ta) (snd ta))) l.
 Proof.
   induction l as [|[t a] l IH]; intros c Hc; [reflexivity|].
   simpl. pose proof (process_cache_ok c t a Hc) as Hc'. pose proof (process_indep c t a Hc) as Hi.
-  destruct (process arg apply_spec is_string c t a) as [c' x]. simpl in *. rewrite Hi. f_equal. now apply IH.
+  destruct (process arg apply_spec is_string skip c t a) as [c' x]. simpl in *. rewrite Hi. f_equal. now apply IH.
 Qed.
 
 (* one statement whose template is a printed, well-formed template with a placeholder *)
 Lemma process_print c (r : tpl) args :
-  wf_tpl r = true -> ok_adj r = true -> first_hole_named r = true -> has_hole r = true -> cache_ok c ->
-  snd (process arg apply_spec is_string c (print r) args)
+  wf_tpl r = true -> (skip = true -> ok_adj r = true) -> first_hole_named r = true -> has_hole r = true -> cache_ok c ->
+  snd (process arg apply_spec is_string skip c (print r) args)
   = use_entry arg apply_spec is_string (positional r, holes r) args.
 Proof.
   intros Hwf Hadj Hfh Hh Hc. rewrite (process_indep c _ _ Hc). unfold process.
-  rewrite (contains_agrees r Hwf Hfh), Hh. simpl. now rewrite (scan_print r Hwf Hadj).
+  rewrite (contains_agrees r Hwf Hfh), Hh. simpl. now rewrite (scan_print_gen skip r Hwf Hadj).
 Qed.
 
 Lemma process_print_nohole c (r : tpl) args :
   wf_tpl r = true -> has_hole r = false ->
-  snd (process arg apply_spec is_string c (print r) args)
+  snd (process arg apply_spec is_string skip c (print r) args)
   = {| r_text := sink_text arg apply_spec is_string (print r) args; r_named := None |}.
 Proof.
   intros Hwf Hh. unfold process.
@@ -842,24 +859,25 @@ Section Clauses.
 Variable arg : Type.
 Variable apply_spec : str -> arg -> option str.
 Variable is_string : arg -> bool.
-Let process := process arg apply_spec is_string.
+Variable skip : bool.
+Let process := process arg apply_spec is_string skip.
 
 (* text = what positional formatting of the same arguments with the name-free template gives *)
-Theorem text_clause c (r : tpl) args :
-  wf_tpl r = true -> ok_adj r = true -> first_hole_named r = true -> has_hole r = true -> cache_ok c ->
+Theorem text_clause_gen c (r : tpl) args :
+  wf_tpl r = true -> (skip = true -> ok_adj r = true) -> first_hole_named r = true -> has_hole r = true -> cache_ok skip c ->
   r_text (snd (process c (print r) args)) = sink_text arg apply_spec is_string (positional r) args
   /\ sink_text arg apply_spec is_string (positional r) args
      = option_map (fun x => strip_nl (sanitize_if (has_string arg is_string args) x)) (render arg apply_spec r args).
 Proof.
-  intros Hwf Hadj Hfh Hh Hc. unfold process. rewrite (process_print arg apply_spec is_string c r args Hwf Hadj Hfh Hh Hc).
+  intros Hwf Hadj Hfh Hh Hc. unfold process. rewrite (process_print arg apply_spec is_string skip c r args Hwf Hadj Hfh Hh Hc).
   split; [reflexivity|].
   unfold sink_text, populate_text. rewrite (mini_fmt_positional arg apply_spec r args Hwf).
   destruct (render arg apply_spec r args); reflexivity.
 Qed.
 
 (* pairs = zip (names ++ _i) (per-spec renderings), one per argument, in argument order *)
-Theorem pairs_clause c (r : tpl) args rs :
-  wf_tpl r = true -> ok_adj r = true -> first_hole_named r = true -> has_hole r = true -> cache_ok c ->
+Theorem pairs_clause_gen c (r : tpl) args rs :
+  wf_tpl r = true -> (skip = true -> ok_adj r = true) -> first_hole_named r = true -> has_hole r = true -> cache_ok skip c ->
   length (holes r) <= length args ->
   renders arg apply_spec (named_specs (holes r) (length args)) args rs ->
   Forall (fun x => has_sep x = false) rs ->
@@ -869,8 +887,34 @@ Theorem pairs_clause c (r : tpl) args rs :
   /\ length (named_keys (holes r) (length args)) = length args.
 Proof.
   intros Hwf Hadj Hfh Hh Hc Hlen Hr Hs. unfold process.
-  rewrite (process_print arg apply_spec is_string c r args Hwf Hadj Hfh Hh Hc). simpl.
+  rewrite (process_print arg apply_spec is_string skip c r args Hwf Hadj Hfh Hh Hc). simpl.
   destruct (pairs_general arg apply_spec is_string (holes r) args rs (holes_specs_fine r Hwf) Hlen Hr Hs) as [E _].
   rewrite E. split; [reflexivity|]. split; [exact (renders_len _ _ _ _ _ Hr)|now apply named_keys_len].
 Qed.
 End Clauses.
+
+(* the clauses for the repaired scanner (skip = false): every well-formed template *)
+Section ClausesRepaired.
+Variable arg : Type.
+Variable apply_spec : str -> arg -> option str.
+Variable is_string : arg -> bool.
+Let process := process arg apply_spec is_string false.
+
+Theorem text_clause c (r : tpl) args :
+  wf_tpl r = true -> first_hole_named r = true -> has_hole r = true -> cache_ok false c ->
+  r_text (snd (process c (print r) args)) = sink_text arg apply_spec is_string (positional r) args
+  /\ sink_text arg apply_spec is_string (positional r) args
+     = option_map (fun x => strip_nl (sanitize_if (has_string arg is_string args) x)) (render arg apply_spec r args).
+Proof. intros Hwf. apply text_clause_gen; [exact Hwf|discriminate]. Qed.
+
+Theorem pairs_clause c (r : tpl) args rs :
+  wf_tpl r = true -> first_hole_named r = true -> has_hole r = true -> cache_ok false c ->
+  length (holes r) <= length args ->
+  renders arg apply_spec (named_specs (holes r) (length args)) args rs ->
+  Forall (fun x => has_sep x = false) rs ->
+  r_named (snd (process c (print r) args))
+  = Some (combine (named_keys (holes r) (length args)) (map (sanitize_if (has_string arg is_string args)) rs))
+  /\ length rs = length args
+  /\ length (named_keys (holes r) (length args)) = length args.
+Proof. intros Hwf. apply pairs_clause_gen; [exact Hwf|discriminate]. Qed.
+End ClausesRepaired.
